@@ -442,13 +442,19 @@ def run_check(mod: Any, tier: str, base_seed: int, runs: int | None = None, proc
     # ---- violations
     known = load_known()
     by_sig: dict[str, dict[str, Any]] = {}
+    alternates: dict[str, list[dict[str, Any]]] = {}  # other runs with the same signature (see "leaked state" below)
     sig_counts: Counter[str] = Counter()
     for r in results:
         for v in r["violations"]:
             sig_counts[v["signature"]] += 1
             cur = by_sig.get(v["signature"])
+            rec = {**r, "vtext": v["text"], "params": params}
             if cur is None or r["tape_len"] < cur["tape_len"]:
-                by_sig[v["signature"]] = {**r, "vtext": v["text"], "params": params}
+                if cur is not None:
+                    alternates.setdefault(v["signature"], []).append(cur)
+                by_sig[v["signature"]] = rec
+            else:
+                alternates.setdefault(v["signature"], []).append(rec)
     exit_code = 0
     lines: list[str] = []
     n_viol = 0
@@ -515,7 +521,20 @@ def run_check(mod: Any, tier: str, base_seed: int, runs: int | None = None, proc
 
         with ThreadPoolExecutor(max_workers=min(8, len(paths))) as tp:
             confirmed = list(tp.map(lambda pth: _fresh_replay(mod.__name__, pth), paths))
+        leaked: list[str] = []
         for (sig, r), small, path, (ok, out) in zip(todo, smalls, paths, confirmed):
+            if not ok:
+                # The representative run does not fail on its own.  Either the check is non-deterministic (a harness
+                # error), or the code under test kept state from an EARLIER run of the same worker process (a module
+                # global, a context variable) - then some other run with this signature contains the whole cause.
+                alts = sorted(alternates.get(sig, []), key=lambda a: a["tape_len"])[:12]
+                for a in alts:
+                    write_replay(mod, a, sig, a["vtext"], path)
+                    ok2, _out2 = _fresh_replay(mod.__name__, path)
+                    if ok2:
+                        leaked.append(f"{sig}: seed {r['seed']} reproduced only after earlier runs in its process; seed {a['seed']} reproduces alone")
+                        r, small, ok = a, a["tape"], True
+                        break
             if not ok:
                 harness_errors.append(f"violation {sig} (seed {r['seed']}) did not replay in a fresh interpreter:\n{out[-800:]}")
                 continue
@@ -524,6 +543,8 @@ def run_check(mod: Any, tier: str, base_seed: int, runs: int | None = None, proc
             lines.append(f"VIOLATION property={prop} replay={path}")
             lines.append(f"  signature={sig} seed={r['seed']} hits={sig_counts[sig]} tape_len={len(small)}")
             lines.append("  " + r["vtext"].replace("\n", "\n  ")[:1500])
+        for ln in leaked:
+            lines.append("  note: state leaked between runs of one worker process - " + ln)
 
     # ---- evidence
     wall = time.monotonic() - t0
